@@ -44,6 +44,8 @@ inductive Ev
   | fetchNone             -- non-blocking Fetch returned (-1, false)
   | assertDone
   | clearDone (ok : Bool)
+  | doneReturned          -- Done returned
+  | addReturned           -- AddWaker returned
 deriving Repr, DecidableEq
 
 structure St where
@@ -142,5 +144,109 @@ def St.act (s : St) : Act → St × Ev
 def St.init (n : Nat) : St := { ts := List.replicate n .idle }
 
 def run (n : Nat) (acts : List Act) : St := acts.foldl (fun s a => (s.act a).1) (St.init n)
+
+/-! ### `Done`
+
+`Done` runs on the fetcher's goroutine (no `Fetch` in progress).  First loop: every attached waker whose pointer still
+names the sleeper is detached by a compare-and-swap to nil; the others (asserted, being asserted, or asserted and
+cleared but still in a list) are put on the pending list.  Second loop: `nextWaker(true)` -- the same code `Fetch`
+runs, here the base machine's states `n2 … n7` -- pulls wakers off the lists until every pending one has been
+seen.  `gone` is a ghost: the wakers this call has detached so far. -/
+
+inductive DPC
+  | off                               -- not inside Done
+  | d1 (k : Nat) (rest : List Nat)    -- LoadPointer(&w.s) of waker k; rest: the attached wakers still to visit
+  | d2 (k : Nat) (rest : List Nat)    -- CompareAndSwapPointer(&w.s, s, nil)
+  | pull                              -- second loop: nextWaker(true) is running in the base machine
+  | w1 (k : Nat)                      -- AddWaker: LoadPointer(&w.s)
+  | w2 (k : Nat) (p : WS)             -- AddWaker: CompareAndSwapPointer(&w.s, p, s)
+  | we1 (k : Nat)                     -- AddWaker found the waker asserted: enqueueAssertedWaker, LoadPointer(&s.sharedList)
+  | we2 (k : Nat) (snap : Option Nat) -- ... CompareAndSwapPointer(&s.sharedList, v, w)
+  | we3 (k : Nat)                     -- ... LoadUintptr(&s.waitingG)
+  | we4 (k : Nat) (g : WG)            -- ... CompareAndSwapUintptr(&s.waitingG, g, 0)
+deriving Repr, DecidableEq, Inhabited
+
+structure DSt where
+  base : St := {}
+  d : DPC := .off
+  /-- `allWakers`: the attached wakers, in list order -/
+  att : List Nat := []
+  pend : List Nat := []
+  gone : List Nat := []
+
+/-- Done has seen every pending waker: it returns -/
+def DSt.finish (s : DSt) : DSt × Ev :=
+  ({ s with d := .off, att := [], base := { s.base with f := .idle } }, .doneReturned)
+
+/-- the next call of `nextWaker(true)` in the second loop, or the return if nothing is pending -/
+def DSt.nextPull (s : DSt) : DSt × Ev :=
+  if s.pend = [] then s.finish
+  else ({ s with d := .pull, base := ({ s.base with f := .idle } : St).startFetch true }, .none)
+
+/-- the first loop moves on to the next attached waker -/
+def DSt.advance (s : DSt) (rest : List Nat) : DSt × Ev :=
+  match rest with
+  | k :: r => ({ s with d := .d1 k r }, .none)
+  | [] => s.nextPull
+
+/-- `Done()` is called (the fetcher is idle) -/
+def DSt.startDone (s : DSt) : DSt × Ev :=
+  if s.d = .off ∧ s.base.f = .idle then s.advance s.att else (s, .none)
+
+/-- one step of the goroutine that runs Done -/
+def DSt.dstep (s : DSt) : DSt × Ev :=
+  match s.d with
+  | .off => (s, .none)
+  | .d1 k rest =>
+    if s.base.ws k ≠ .slp then { s with pend := k :: s.pend }.advance rest else ({ s with d := .d2 k rest }, .none)
+  | .d2 k rest =>
+    if s.base.ws k = .slp then
+      { s with base := { s.base with ws := setWs s.base.ws k .nil }, gone := s.gone ++ [k] }.advance rest
+    else ({ s with d := .d1 k rest }, .none)
+  | .pull =>
+    match s.base.f with
+    | .f1 k => { s with pend := s.pend.erase k, gone := s.gone ++ [k] }.nextPull   -- nextWaker returned waker k
+    | _ => ({ s with base := s.base.fstep.1 }, .none)
+  -- AddWaker (on the fetcher's goroutine): attach a detached waker again
+  | .w1 k => if s.base.ws k = .asserted then ({ s with d := .we1 k }, .none) else ({ s with d := .w2 k (s.base.ws k) }, .none)
+  | .w2 k p =>
+    if s.base.ws k = p then
+      ({ s with base := { s.base with ws := setWs s.base.ws k .slp }, gone := s.gone.erase k, d := .off }, .addReturned)
+    else ({ s with d := .w1 k }, .none)
+  | .we1 k => ({ s with d := .we2 k s.base.shared.head? }, .none)
+  | .we2 k snap =>
+    if s.base.shared.head? = snap then
+      ({ s with base := { s.base with shared := k :: s.base.shared }, gone := s.gone.erase k, d := .we3 k }, .none)
+    else ({ s with d := .we1 k }, .none)
+  | .we3 k => if s.base.wg = .zero then ({ s with d := .off }, .addReturned) else ({ s with d := .we4 k s.base.wg }, .none)
+  | .we4 k g =>
+    if s.base.wg = g then ({ s with base := { s.base with wg := .zero }, d := .we3 k }, .none)
+    else ({ s with d := .we3 k }, .none)
+
+/-- `AddWaker(w)` is called for a waker a previous `Done` has detached (the fetcher is idle, nothing else of this
+layer is running) -/
+def DSt.startAdd (s : DSt) (k : Nat) : DSt × Ev :=
+  if s.d = .off ∧ s.base.f = .idle ∧ k ∈ s.gone then ({ s with att := k :: s.att, d := .w1 k }, .none) else (s, .none)
+
+inductive DAct
+  | base (a : Act)     -- anything the base machine does (a Fetch and its steps only outside Done / AddWaker)
+  | done               -- the fetcher's goroutine calls Done()
+  | add (k : Nat)      -- ... or AddWaker on a detached waker
+  | dstep              -- ... and executes its next step
+deriving Repr
+
+def DSt.act (s : DSt) : DAct → DSt × Ev
+  | .base (.fetch b) => if s.d = .off then ({ s with base := s.base.startFetch b }, .none) else (s, .none)
+  | .base .fstep => if s.d = .off then (let r := s.base.fstep; ({ s with base := r.1 }, r.2)) else (s, .none)
+  | .base (.call t c) => ({ s with base := s.base.startCall t c }, .none)
+  | .base (.astep t) => let r := s.base.astep t; ({ s with base := r.1 }, r.2)
+  | .done => s.startDone
+  | .add k => s.startAdd k
+  | .dstep => s.dstep
+
+/-- `n` asserter threads, wakers `0 … nw-1` attached (the last one added is the first of `allWakers`) -/
+def DSt.init (n nw : Nat) : DSt := { base := St.init n, att := (List.range nw).reverse }
+
+def drun (n nw : Nat) (acts : List DAct) : DSt := acts.foldl (fun s a => (s.act a).1) (DSt.init n nw)
 
 end Model.Sleep
